@@ -63,16 +63,33 @@ type lookup struct {
 	enter   chan *held
 	done    int32 // QueryDone events seen
 	exit    chan struct{}
+	forms   *rand.Rand // which byte form an IPv4 address is reported in
 }
 
 func (lk *lookup) absID(id krpc.ID) int { return lk.emb.MustAbs(id) }
 
 func (lk *lookup) candOf(a types.AddrMaybeId) cand {
-	c := cand{Addr: a.Addr.String(), Id: -1}
+	c := cand{Addr: canon(a.Addr.AddrPort), Id: -1}
 	if a.Id.Ok {
 		c.Id = lk.absID(a.Id.Value.AsByteArray())
 	}
 	return c
+}
+
+// canon is the harness's notion of an address: IP and port, whatever byte form the IP was reported in
+// (an IPv4 address in 4 bytes and the same address v4-mapped in 16 bytes are one address).
+func canon(ap netip.AddrPort) string {
+	return netip.AddrPortFrom(ap.Addr().Unmap(), ap.Port()).String()
+}
+
+func canonNA(a krpc.NodeAddr) string { return canon(a.ToNodeAddrPort().AddrPort) }
+
+// otherForm returns the same IPv4 address in the 16-byte v4-mapped form.
+func otherForm(a krpc.NodeAddr) krpc.NodeAddr {
+	if ip4 := a.IP.To4(); ip4 != nil {
+		a.IP = ip4.To16()
+	}
+	return a
 }
 
 func parseAddr(s string) krpc.NodeAddr {
@@ -83,7 +100,11 @@ func parseAddr(s string) krpc.NodeAddr {
 }
 
 func (lk *lookup) ami(c cand) types.AddrMaybeId {
-	r := types.AddrMaybeId{Addr: parseAddr(c.Addr).ToNodeAddrPort()}
+	na := parseAddr(c.Addr)
+	if lk.forms.Intn(4) == 0 {
+		na = otherForm(na)
+	}
+	r := types.AddrMaybeId{Addr: na.ToNodeAddrPort()}
 	if c.Id >= 0 {
 		r.Id = generics.Some(int160.FromByteArray(lk.emb.Conc(c.Id)))
 	}
@@ -91,7 +112,11 @@ func (lk *lookup) ami(c cand) types.AddrMaybeId {
 }
 
 func (lk *lookup) nodeInfo(c cand) krpc.NodeInfo {
-	return krpc.NodeInfo{ID: lk.emb.Conc(c.Id), Addr: parseAddr(c.Addr)}
+	na := parseAddr(c.Addr)
+	if lk.forms.Intn(4) == 0 {
+		na = otherForm(na)
+	}
+	return krpc.NodeInfo{ID: lk.emb.Conc(c.Id), Addr: na}
 }
 
 func (lk *lookup) nodeOK(c cand) bool { return !lk.bad[c.Addr] && !lk.badp[c] }
@@ -123,18 +148,18 @@ func (lk *lookup) sink(op *traversal.Operation, ev traversal.VerifEvent) {
 		ns := []cand{}
 		for _, l := range [][]krpc.NodeInfo{r.Nodes, r.Nodes6} {
 			for _, n := range l {
-				ns = append(ns, cand{Addr: n.Addr.ToNodeAddrPort().String(), Id: lk.absID(n.ID)})
+				ns = append(ns, cand{Addr: canonNA(n.Addr), Id: lk.absID(n.ID)})
 			}
 		}
 		m["nodes"] = ns
 	case "Closest":
-		m["addr"] = ev.Node.Addr.ToNodeAddrPort().String()
+		m["addr"] = canonNA(ev.Node.Addr)
 		m["id"] = lk.absID(ev.Node.ID)
 		m["nodeOk"] = ev.Flag
 		m["dataOk"] = ev.Flag2
 		cl := []cand{}
 		for _, k := range ev.Closest {
-			cl = append(cl, cand{Addr: k.Addr.String(), Id: lk.absID(k.ID)})
+			cl = append(cl, cand{Addr: canon(k.Addr.AddrPort), Id: lk.absID(k.ID)})
 		}
 		m["closest"] = cl
 	case "RunEval":
@@ -155,7 +180,7 @@ func (lk *lookup) harnessEv(kind string) {
 }
 
 func (lk *lookup) doQuery(ctx context.Context, addr krpc.NodeAddr) traversal.QueryResult {
-	a := addr.ToNodeAddrPort().String()
+	a := canonNA(addr)
 	lk.mu.Lock()
 	lk.counts[a]++
 	lk.conc++
@@ -206,6 +231,7 @@ func genLookup(rng *rand.Rand, seg int, tr *sim.Trace, big bool) *lookup {
 		emb: sim.NewEmbedding(rng, w), seg: seg, tr: tr,
 		net: map[string]nodeBehaviour{}, bad: map[string]bool{}, badp: map[cand]bool{},
 		counts: map[string]int{}, enter: make(chan *held, 64), exit: make(chan struct{}),
+		forms: rand.New(rand.NewSource(rng.Int63())),
 	}
 	lk.k = 1 + rng.Intn(3)
 	if rng.Intn(8) == 0 {
@@ -497,7 +523,7 @@ func (lk *lookup) run(rng *rand.Rand, seed int64, idx int, concurrent bool) (err
 	}
 	cl := []cand{}
 	op.Closest().Range(func(e k_nearest_nodes.Elem) {
-		cl = append(cl, cand{e.Addr.String(), lk.absID(e.ID)})
+		cl = append(cl, cand{canon(e.Addr.AddrPort), lk.absID(e.ID)})
 	})
 	counts := [][]any{}
 	for _, a := range lk.addrs {
